@@ -335,14 +335,28 @@ impl HelperDef for LocalHelper {
     fn call<'reg: 'rc, 'rc>(
         &self,
         h: &Helper<'rc>,
-        _r: &'reg Handlebars<'reg>,
+        r: &'reg Handlebars<'reg>,
         _ctx: &'rc Context,
-        _rc: &mut RenderContext<'reg, 'rc>,
+        rc: &mut RenderContext<'reg, 'rc>,
         out: &mut dyn Output,
     ) -> HelperResult {
         let s = format!("local({}:{})", self.registered_name, pj_list(h.params()));
         log_line(&s);
-        out.write(&s)?;
+        if self.registered_name.starts_with("w:") {
+            // a tag beginning with "w:" makes the local helper write the rendered text of its first
+            // parameter (nothing if there is none) instead of its own description
+            let t = h
+                .param(0)
+                .map(|p| handlebars::JsonRender::render(p.value()))
+                .unwrap_or_default();
+            out.write(&t)?;
+        } else if self.registered_name.starts_with("e:") && !rc.is_disable_escape() {
+            // a tag beginning with "e:" makes the local helper honour the escape toggle, like a helper
+            // written with the default `HelperDef::call` does for its returned value
+            out.write(&r.get_escape_fn()(&s))?;
+        } else {
+            out.write(&s)?;
+        }
         Ok(())
     }
 }
@@ -408,6 +422,9 @@ pub fn register_probes(reg: &mut Handlebars<'static>) {
     reg.register_helper("state", Box::new(State));
     reg.register_helper("evalp", Box::new(Evalp));
     reg.register_helper("fail", Box::new(Fail));
+    // helper names that are paths, not identifiers
+    reg.register_helper("ns.id", Box::new(Id));
+    reg.register_helper("math/pi", Box::new(Dump));
     reg.register_decorator("sethelper", Box::new(SetHelper));
     reg.register_decorator("setctx", Box::new(SetCtx));
 }
